@@ -190,9 +190,12 @@ class Sink:
 
 
 class KindEngine:
-    def __init__(self, program: Program, public_hypothesis: bool = True):
+    def __init__(self, program: Program, public_hypothesis: bool = True, float_ticks: bool = False):
         self.p = program
         self.public_hypothesis = public_hypothesis
+        # float_ticks: drop the inductive hypothesis "message times are integers" (used by C02: tokenise must emit vocabulary
+        # members for every input it accepts, and Sequence.scale(0.5) hands it float-valued ticks)
+        self.float_ticks = float_ticks
         self.param_kinds: dict[tuple[str, str], Kind] = {}
         self.param_prov: dict[tuple[str, str], set] = {}
         self.ret_kinds: dict[str, Kind] = {}
@@ -574,6 +577,8 @@ class _KInterp(AbsInt):
         base_k = self.ev(e.value, st)
         if e.attr in MESSAGE_INT_FIELDS:
             # inductive hypothesis: numeric message fields are int (or None)
+            if e.attr == "time" and eng.float_ticks:
+                return join(join(INT, FLOAT), NONE)
             return join(INT, NONE)
         if e.attr == "_messages" and "Message" in eng.p.classes:
             # representation invariant of the sequence classes: the event list holds Message objects
